@@ -24,6 +24,8 @@ ALSO = {'C13_REV_S1_set_order': ['C13', 'C17'], 'C01_REV_S3_repair_live_classes'
 
 
 def sh(cmd, cwd=None, env=None, timeout=7200):
+    if env is None:
+        env = dict(os.environ, PYTHONHASHSEED='0')   # doctests that print sets are hash-seed dependent
     p = subprocess.run(cmd, cwd=cwd, env=env, capture_output=True, timeout=timeout)
     return p.returncode, (p.stdout + p.stderr).decode(errors='replace')
 
